@@ -109,7 +109,15 @@ fn get_delta_header_size(
         }
         let cmd = delta[*index];
         *index += 1;
-        size |= ((cmd & !0x80) as usize) << i;
+        let bits = (cmd & !0x80) as usize;
+        if bits != 0 {
+            // Reject sizes that do not fit instead of wrapping (or panicking
+            // on an over-long shift in builds with overflow checks).
+            if i >= usize::BITS as usize || (bits << i) >> i != bits {
+                return Err("delta size header too large");
+            }
+            size |= bits << i;
+        }
         i += 7;
         if cmd & 0x80 == 0 {
             return Ok(size);
@@ -165,7 +173,10 @@ fn apply_delta(py: Python, py_src_buf: Py<PyAny>, py_delta: Py<PyAny>) -> PyResu
 
     let dest_size = get_delta_header_size(delta.as_ref(), &mut index, delta_len)
         .map_err(ApplyDeltaError::new_err)?;
-    let mut out = vec![0; dest_size];
+    // First validate the operations and add up what they produce; the output
+    // buffer is only allocated once that total matches the declared size, so a
+    // corrupt size header cannot trigger a huge allocation.
+    let mut ops: Vec<(bool, usize, usize)> = Vec::new();
     let mut outindex = 0;
 
     while index < delta_len {
@@ -212,7 +223,7 @@ fn apply_delta(py: Python, py_src_buf: Py<PyAny>, py_delta: Py<PyAny>) -> PyResu
                 break;
             }
 
-            out[outindex..outindex + cp_size].copy_from_slice(&src_buf[cp_off..cp_off + cp_size]);
+            ops.push((true, cp_off, cp_size));
             outindex += cp_size;
         } else if cmd != 0 {
             if (cmd as usize) > dest_size {
@@ -227,8 +238,7 @@ fn apply_delta(py: Python, py_src_buf: Py<PyAny>, py_delta: Py<PyAny>) -> PyResu
                 return Err(ApplyDeltaError::new_err("delta not empty"));
             }
 
-            out[outindex..outindex + cmd as usize]
-                .copy_from_slice(&delta[index..index + cmd as usize]);
+            ops.push((false, index, cmd as usize));
             outindex += cmd as usize;
             index += cmd as usize;
         } else {
@@ -242,6 +252,15 @@ fn apply_delta(py: Python, py_src_buf: Py<PyAny>, py_delta: Py<PyAny>) -> PyResu
 
     if outindex != dest_size {
         return Err(ApplyDeltaError::new_err("dest size incorrect"));
+    }
+
+    let mut out: Vec<u8> = Vec::with_capacity(dest_size);
+    for (is_copy, start, len) in ops {
+        if is_copy {
+            out.extend_from_slice(&src_buf[start..start + len]);
+        } else {
+            out.extend_from_slice(&delta[start..start + len]);
+        }
     }
 
     Ok(vec![PyBytes::new(py, &out).into()])
